@@ -54,3 +54,17 @@ package fuse
 //@   call formLookupKey#1 assert [key] $0 == op.Parent && $1 == op.Name
 //@   call preCreateCheck#1 assert [parent] $1 == op.Parent
 //@   call createNode#1 assert [dir] $2 == op.Parent && $3 == op.Name && $5 == fuseutil.DT_Directory
+
+// ---- read-only mount: directory listing (C17) ---------------------------------------------------
+// The entries written are children[offset], children[offset+1], ... in order, up to the first one
+// that does not fit: none is skipped (a skipped child would be lost, since the caller resumes at
+// the offset of the last entry it received).
+//@ func (*readOnlyFsInternal).ReadDir
+//@   requires fs != nil && op != nil && op.Offset < 9223372036854775807
+//@   requires 0 <= op.BytesRead && op.BytesRead <= len(op.Dst)
+//@   call WriteDirent#1 bind n = $ret0
+//@   call WriteDirent#1 assert [this-child] $d == children[i]
+//@   call WriteDirent#1 assert [at-cursor] $buf == op.Dst[op.BytesRead:]
+//@   loop 1 invariant [no-skip] n_set ==> n != 0
+//@   loop 1 invariant [cursor] 0 <= op.BytesRead && op.BytesRead <= len(op.Dst) && offset <= i && i <= len(children) && offset >= 0
+//@   ensures [past-end] old(op.Offset) > len(children) ==> err != nil
